@@ -223,7 +223,7 @@ void columns_phase(World& w, const Task& t, int64_t from, Sub& sub, Emitter& em,
             Image img = img0;
             bool built = false;
             for (size_t f = 0; f < F.size(); ++f)
-                for (int v = 0; v < 2; ++v)
+                for (int v = 0; v < 3; ++v)
                 {
                     int64_t my = step++;
                     if (my < from) continue;
@@ -241,7 +241,7 @@ void columns_phase(World& w, const Task& t, int64_t from, Sub& sub, Emitter& em,
                     }
                     if (!prior_ok) continue;
                     sub.at(my);
-                    int vi = std::min(v == 0 ? 1 : F[f].nvalues - 1, F[f].nvalues - 1);
+                    int vi = std::min(v == 0 ? 1 : v == 1 ? F[f].nvalues - 1 : 0, F[f].nvalues - 1);  // second, last and first (absent / zero) value
                     const std::string cid = sn + "|C|" + (g < 0 ? "none" : F[(size_t)g].name + "#" + std::to_string(gv)) + "|" + F[f].name + "#" + std::to_string(vi);
                     sub.label(cid);
                     a.count("evaluations");
